@@ -242,6 +242,9 @@ def render_block(rng, b, layout=None):
     def emit_part(head, anns, desc_lines, head_colon=True, trailing_colon_when_empty=False):
         """head e.g. '@name' or 'Returns' ; returns index of first line"""
         chunks = [ser_annotation(k, v) for k, v in anns.items()]
+        if L.get('pad_parens'):
+            # white space right after "(" and before ")" is not part of any token
+            chunks = [rng.choice([c, '( ' + c[1:], c[:-1] + ' )', '( ' + c[1:-1] + ' )']) for c in chunks]
         first = len(body)
         if not chunks:
             line = head + ':'
@@ -337,7 +340,7 @@ def gen_layout(rng):
     return {'eol': rng.choice(['\n', '\n', '\r\n', '\r']), 'colon_ident': rng.random() < 0.8, 'split_anns': rng.random() < 0.4,
             'indent': rng.choice(['std', 'std', 'none', 'tab', 'ragged', 'deep']), 'star_space': rng.random() < 0.85,
             'end': rng.choice(['*/', '*/', '**/']), 'tag_case': rng.choice(['cap', 'cap', 'lower', 'upper']),
-            'blank_before_tags': rng.random() < 0.7}
+            'blank_before_tags': rng.random() < 0.7, 'pad_parens': rng.random() < 0.15}
 
 
 # ---- neutral form of a parsed block and of a model ----------------------------------------------------
